@@ -205,11 +205,26 @@ def run(tier, replay):
             raise ToolError("ChainConc.tla violates its safety invariants in the model (%s)" % cfg)
         mcs.append({"config": cfg, "distinct_states": r.distinct, "states_generated": r.generated})
 
-    # the model (with check_orphan's decision and insertion as separate steps) exhibits a design-level
-    # race: a block can be left in the orphan pool although its parent body is stored; the real runs
-    # below (directed delay) look for it on the code
+    # check_orphan's decision and its orphan-pool insertion are separate steps in the model; with the
+    # re-check after the insertion no block may be left stranded: FinalSequential under every interleaving
     rr = vlib.tlc("mc/MC_ChainConc", "mc/MC_ChainConc_race", workers=4, coverage=False, timeout=900)
-    race_in_model = "FinalSequential" in rr.invariant_violated
+    if rr.invariant_violated or not rr.finished:
+        print(rr.out[-2500:])
+        raise ToolError("ChainConc.tla violates FinalSequential in the model")
+    # ... and the directed schedule that exposed the window on the real code (slow pool insertion of the
+    # child while the parent is accepted by another thread) must not strand the child
+    race_runs = []
+    for i in range(3 if thorough else 1):
+        p = subprocess.run([BIN(), "race", "--work", os.path.join(wd, "race"), "--delay-us", str(600000 + 150000 * i)],
+                           stdout=subprocess.PIPE, stderr=subprocess.PIPE, text=True, timeout=600)
+        if p.returncode != 0 or not p.stdout.strip():
+            print(p.stdout[-1000:], p.stderr[-1000:])
+            raise ToolError("race probe failed to run")
+        o = json.loads(p.stdout.strip().splitlines()[-1])
+        race_runs.append(o)
+        if o.get("stranded"):
+            rep.violation("conc:orphan_stranded:parent_accepted_before_insertion", {"probe": "race", "outcome": o},
+                          "directed schedule: the child stays in the orphan pool although its parent body is stored (head %s)" % o.get("head_height"))
 
     # (B) real threads, TLC-generated trees and delivery multisets
     n = 120 if thorough else 14
@@ -240,7 +255,7 @@ def run(tier, replay):
         "samples": [{"protocol_process_block_next": protos.get("process_block_next"), "protocol_validate_tx": protos.get("validate_tx")},
                     {"scenario_threads": scen[0]["threads"], "final": outs[0].get("final")}],
         "lock_protocols_recorded": len(plist), "lock_model": {"distinct_states": r1.distinct, "threads": 3},
-        "chainconc_models": mcs, "stranded_orphan_race_in_model": race_in_model,
+        "chainconc_models": mcs, "directed_orphan_race_probe": race_runs,
         "real_runs": st, "directed_delay_runs": st2,
         "operations_with_protocols": pnames,
     }
